@@ -431,8 +431,21 @@ def scen_vhdx(ctx, M):
     for name, region in A._capture_regions.items():
         ctx.check('C05-region-length-%s' % name,
                   AND(region.length >= 0, region.length <= 64 * KiB))
+    wf = False
+    if mi is not None and vi is not None and fam == 'forward':
+        e = Mv + 32 + 32 * vi
+        io = S.le(e + 16, 4)
+        il = S.le(e + 20, 4)
+        size = S.le(Mv + io, 8)
+        entries = 32 + 32 * len(mt)
+        mcnt = S.le(Mv + 10, 2)
+        wf = AND(N >= 256 * KiB, S.has(HDR, b'regi'),
+                 S.has(Mv, b'metadata'), mcnt == len(mt), io >= entries,
+                 il == 8, N >= Mv + io + 8, N >= Mv + entries)
     if ea is not None or eb is not None:
         ctx.goal('rejected-by-eat_chunk')
+        # a well-formed image is never refused while streaming
+        ctx.check('C07-wellformed-not-rejected', NOT(wf))
         return (ea, eb)
     oa = observe(ctx, fi, A)
     ctx.check('C01-rel-match', oa[0] == ob[0])
@@ -444,14 +457,6 @@ def scen_vhdx(ctx, M):
     ctx.check('C03-match-iff-signature', h.veq(m, S.has(0, b'vhdxfile')))
     # C07 on the well-formed skeleton
     if mi is not None and vi is not None and fam == 'forward':
-        e = Mv + 32 + 32 * vi
-        io = S.le(e + 16, 4)
-        il = S.le(e + 20, 4)
-        size = S.le(Mv + io, 8)
-        entries = 32 + 32 * len(mt)
-        wf = AND(N >= 256 * KiB, S.has(HDR, b'regi'),
-                 S.has(Mv, b'metadata'), io >= entries, il == 8,
-                 N >= Mv + io + 8, N >= Mv + entries)
         if ctx.truth(wf):
             ctx.goal('well-formed')
             ctx.check('C07-size', h.veq(vs, size))
